@@ -2,6 +2,7 @@ package symgo
 
 import (
 	"fmt"
+	"os"
 	"go/constant"
 	"go/token"
 	"go/types"
@@ -28,6 +29,9 @@ type goPanic struct {
 }
 
 type engineError struct{ msg string }
+
+var traceOn = os.Getenv("VERIF_TRACE") != ""
+var traceInstr = os.Getenv("VERIF_TRACE") == "2"
 
 func engineErr(f string, a ...interface{}) {
 	panic(engineError{fmt.Sprintf(f, a...)})
@@ -725,6 +729,9 @@ func (in *Interp) callFn(fn *ssa.Function, args []Value, env []Value, site ssa.C
 	if fn.Synthetic == "package initializer" && !in.initAllowed(fn.Pkg) {
 		return nil
 	}
+	if traceOn {
+		fmt.Fprintf(os.Stderr, "%*s-> %s\n", in.depth, "", fn.String())
+	}
 	in.depth++
 	if in.depth > 400 {
 		in.unsupported("call depth > 400")
@@ -770,6 +777,22 @@ func (in *Interp) runFrame(fr *frame) {
 		b := fr.block
 		for _, instr := range b.Instrs {
 			in.steps++
+			if traceInstr {
+				r := in.exec(fr, instr)
+				if v, ok := instr.(ssa.Value); ok {
+					fmt.Fprintf(os.Stderr, "%*s   %s = %s  => %s\n", in.depth, "", v.Name(), instr, showVal(fr.env[v]))
+				} else {
+					fmt.Fprintf(os.Stderr, "%*s   %s\n", in.depth, "", instr)
+				}
+				switch r {
+				case kReturn:
+					fr.block = nil
+					return
+				case kJump:
+					goto next
+				}
+				continue
+			}
 			switch in.exec(fr, instr) {
 			case kReturn:
 				fr.block = nil
@@ -1085,7 +1108,7 @@ func (in *Interp) store(addr Value, v Value, t types.Type) {
 		if p == nil {
 			in.runtimePanic("invalid memory address or nil pointer dereference")
 		}
-		*p = copyVal(v)
+		assign(p, v)
 	case *LazyPtr:
 		if len(p.path) > 0 {
 			whole := in.load(&LazyPtr{ls: p.ls, idx: p.idx}, p.ls.elem)
@@ -1099,11 +1122,34 @@ func (in *Interp) store(addr Value, v Value, t types.Type) {
 		p.ls.writes = append(p.ls.writes, lazyWrite{p.idx, copyVal(v)})
 	case *SymPtr:
 		for _, c := range p.c {
-			*c.p = in.mergeVal(c.g, copyVal(v), *c.p, t)
+			assign(c.p, in.mergeVal(c.g, copyVal(v), copyVal(*c.p), t))
 		}
 	default:
 		engineErr("store to %T", addr)
 	}
+}
+
+// assign stores v into the slot in place: struct fields and array elements are overwritten
+// individually so that pointers into the aggregate (FieldAddr/IndexAddr results taken
+// earlier) stay valid.
+func assign(dst *Value, v Value) {
+	switch nv := v.(type) {
+	case Struct:
+		if cur, ok := (*dst).(Struct); ok && len(cur) == len(nv) {
+			for i := range nv {
+				assign(&cur[i], nv[i])
+			}
+			return
+		}
+	case Array:
+		if cur, ok := (*dst).(Array); ok && len(cur) == len(nv) {
+			for i := range nv {
+				assign(&cur[i], nv[i])
+			}
+			return
+		}
+	}
+	*dst = copyVal(v)
 }
 
 // mergeVal returns ite(g, a, b) structurally; falls back to forking on g.
@@ -1834,6 +1880,9 @@ func (in *Interp) callBuiltin(b *ssa.Builtin, args []Value, site ssa.CallInstruc
 			case *Term:
 				r = in.mergeVal(cv, a, r, t)
 			}
+		}
+		if traceOn {
+			fmt.Fprintf(os.Stderr, "builtin %s(%v) = %v\n", b.Name(), args, r)
 		}
 		return r
 	case "ssa:wrapnilchk":
